@@ -184,6 +184,11 @@ def build(d: Path, scn, out_name="out.nc", record_output=True, record_ibm=False,
                          numrec=o["numrec"], layout=o["layout"], reverse=rev, reference=ref,
                          ivars=ivars, dtype=o["dtype"])
     conf["output"]["instance_variables"]["tag"] = e2e.outvar("i4")
+    if o.get("pack_age"):
+        # a packed output variable (integer on file, scale_factor / add_offset attributes); age counts whole steps,
+        # so the packing is lossless
+        sf, off = o["pack_age"]
+        conf["output"]["instance_variables"]["age"] = e2e.outvar("i4", scale_factor=float(sf), add_offset=float(off))
     if g.get("sub"):
         conf["grid"]["subgrid"] = list(g["sub"])
     state = {"instance_variables": {"tag": "int", "age": "float"}, "default_values": {"age": 0.0}}
